@@ -192,9 +192,19 @@ def sampler(S, sup=None):
     """a new MonteCarloSampler for the system (optionally on another ClusterSupercell, e.g. vacancy moved)"""
     sup = sup if sup is not None else S.sup
     if S.jumpnetwork is None:
-        return cluster.MonteCarloSampler(sup, S.socc, S.clusterexp, S.values)
-    return cluster.MonteCarloSampler(sup, S.socc, S.clusterexp, S.values, S.chem, S.jumpnetwork,
-                                     KRAvalues=S.KRA, TSclusters=S.TSclusters, TSvalues=S.TSvalues)
+        MC = cluster.MonteCarloSampler(sup, S.socc, S.clusterexp, S.values)
+    else:
+        MC = cluster.MonteCarloSampler(sup, S.socc, S.clusterexp, S.values, S.chem, S.jumpnetwork,
+                                       KRAvalues=S.KRA, TSclusters=S.TSclusters, TSvalues=S.TSvalues)
+    # a never-used twin (own copies of every mutable container the object may hold), from which fresh samplers are cloned
+    P = copy.copy(MC); _detach(P)
+    MC._verif_pristine = P
+    return MC
+
+
+def _detach(F):
+    for k, v in list(vars(F).items()):
+        if isinstance(v, (dict, set)): setattr(F, k, copy.deepcopy(v))
 
 
 def random_occ(rng, S, p=None):
@@ -227,8 +237,8 @@ def intval(x, what="value"):
 
 
 def fresh(MC, occ):
-    """a sampler sharing MC's static tables, freshly started on a copy of occ"""
-    F = copy.copy(MC)
+    """a NEW sampler (clone of the never-used twin: shares only the read-only tables with MC), started on a copy of occ"""
+    F = copy.copy(getattr(MC, "_verif_pristine", MC)); _detach(F)
     F.start(np.array(occ, dtype=int).copy())
     return F
 
